@@ -154,7 +154,7 @@ func ruleNotify(r *Report) {
 	if n == 0 {
 		r.Undecided(rule, "Store.Flush has no success return")
 	}
-	r.Min(rule, 3)
+	r.Min(rule, 2) // at least one broadcast point under the lock and one successful return
 }
 
 func ruleNotifyReset(r *Report) {
